@@ -117,6 +117,9 @@ theorem slice_zeros (k o n : Nat) (h : o + n ≤ k) : slice (zeros k) o n = zero
 
 theorem isAut_setLoc (c : Cmd) (x : Nat) : isAut (c.setLoc x) = isAut c := by cases c <;> rfl
 
+/-- assigning data references does not touch the block lists -/
+theorem blocks_setLoc (c : Cmd) (x : Nat) : (c.setLoc x).blocks = c.blocks := by cases c <;> rfl
+
 theorem getAut_assignLocs_isSome (k n : Nat) (l : List CsfCmd) :
     (getAut k (assignLocs n l)).isSome = (getAut k l).isSome := by
   induction l generalizing k n with
@@ -141,11 +144,41 @@ theorem getAut_assignLocs_isSome (k n : Nat) (l : List CsfCmd) :
       · cases k <;> simp [ha, ih]
       · simp [ha, ih]
 
+/-- `getAut` commutes with the assignment of data references up to the location field -/
+theorem getAut_assignLocs_blocks (k n : Nat) (l : List CsfCmd) :
+    (getAut k (assignLocs n l)).map (fun c => c.cmd.blocks) = (getAut k l).map (fun c => c.cmd.blocks) := by
+  induction l generalizing k n with
+  | nil => rfl
+  | cons c r ih =>
+    unfold assignLocs
+    by_cases hr : needsRef c.cmd = true
+    · simp only [hr, ↓reduceIte]
+      cases hd : c.data with
+      | none =>
+        simp only [getAut, isAut_setLoc]
+        by_cases ha : isAut c.cmd = true
+        · cases k <;> simp [ha, ih, blocks_setLoc]
+        · simp [ha, ih]
+      | some d =>
+        simp only [getAut, isAut_setLoc]
+        by_cases ha : isAut c.cmd = true
+        · cases k <;> simp [ha, ih, blocks_setLoc]
+        · simp [ha, ih]
+    · simp only [hr, Bool.false_eq_true, ↓reduceIte, getAut]
+      by_cases ha : isAut c.cmd = true
+      · cases k <;> simp [ha, ih]
+      · simp [ha, ih]
+
+theorem csfAppBlock_assignLocs (n : Nat) (l : List CsfCmd) : csfAppBlock (assignLocs n l) = csfAppBlock l := by
+  unfold csfAppBlock
+  rw [getAut_assignLocs_blocks 1 n l, getAut_assignLocs_blocks 2 n l]
+
 theorem hab_roundtrip_lemma (c : Cfg) (b : Built) (h : c.WF)
     (hd : ∀ d, c.dcd = some d → DcdWF d) (hx : ∀ x, c.xmcd = some x → XmcdWF x)
     (happ : b.app.length = c.appBin.length)
-    (hc : c.hasCsf = true → CsfWF c.version b.cmds ∧ (getAut 2 b.cmds).isSome = isEnc c.flags)
-    (hvis : findAppOffset (exportImage c b) c.entry HabConsts.knownAppOffsets = some c.appOff) :
+    (hc : c.hasCsf = true → CsfWF c.version b.cmds ∧ (getAut 2 b.cmds).isSome = isEnc c.flags ∧
+      csfAppBlock b.cmds = some (c.start + c.ivtOff + c.appOff, c.appBin.length))
+    (hvis : c.hasCsf = false → findAppOffset (exportImage c b) c.entry HabConsts.knownAppOffsets = some c.appOff) :
     parse (exportImage c b) = .ok (expectedParse c b) := by
   have hcsfLen : c.hasCsf = true → (csfBytes c.version b.cmds).length = HabConsts.csfSize :=
     fun hh => csfBytes_length _ _ (hc hh).1
@@ -260,15 +293,16 @@ theorem hab_roundtrip_lemma (c : Cfg) (b : Built) (h : c.WF)
       rw [hv, Nat.add_sub_cancel_left, dcdSegOffN_eq]
   -- 5. CSF stage
   have hCsfR : parseCsfSeg img c.ivt =
-      .ok (if c.hasCsf then [⟨"csf", c.csfOff, csfBytes c.version b.cmds⟩] else [], expectedFlags c) := by
+      .ok (if c.hasCsf then [⟨"csf", c.csfOff, csfBytes c.version b.cmds⟩] else [], expectedFlags c,
+           if c.hasCsf then some (c.start + c.ivtOff + c.appOff, c.appBin.length) else none) := by
     unfold parseCsfSeg
     by_cases hh : c.hasCsf = true
     · obtain ⟨hv, _, hs, _⟩ := pCsf hh
-      obtain ⟨hw, hfl⟩ := hc hh
+      obtain ⟨hw, hfl, hblk⟩ := hc hh
       have hne : c.ivt.csf ≠ 0 := by rw [hv, pSelf]; have := h.nonzero; omega
       rw [if_pos hne, hs, parseCsf_csfBytes _ _ hw]
       simp only [hh, ↓reduceIte]
-      rw [csfBytes_assignLocs, getAut_assignLocs_isSome, hfl, hv, Nat.add_sub_cancel_left]
+      rw [csfBytes_assignLocs, getAut_assignLocs_isSome, hfl, hv, Nat.add_sub_cancel_left, csfAppBlock_assignLocs, hblk]
       unfold expectedFlags
       simp only [hh, Bool.not_true, Bool.false_eq_true, ↓reduceIte]
     · have hh' : c.hasCsf = false := by simpa using hh
@@ -276,20 +310,6 @@ theorem hab_roundtrip_lemma (c : Cfg) (b : Built) (h : c.WF)
       simp [hh', expectedFlags]
   -- 6. application
   have hbo : c.ivt.bdt - c.ivt.self = bdtSegOffN := by rw [pBdt, bdtSegOffN_eq]; omega
-  have happb : appSeg img c.ivt c.appOff =
-      ⟨"app", c.appOff, if c.hasCsf then slice img c.appOff (c.csfOff - c.appOff) else b.app⟩ := by
-    unfold appSeg
-    by_cases hh : c.hasCsf = true
-    · obtain ⟨hv, _, _, _⟩ := pCsf hh
-      have hpos : c.ivt.csf > 0 := by rw [hv, pSelf]; have := h.nonzero; omega
-      simp only [hh, hpos, ↓reduceIte]
-      rw [hv, Nat.add_sub_cancel_left]
-      rfl
-    · have hh' : c.hasCsf = false := by simpa using hh
-      obtain ⟨hv, hl⟩ := pNoCsf hh'
-      simp only [hh', hv, Nat.lt_irrefl, gt_iff_lt, Bool.false_eq_true, ↓reduceIte]
-      rw [hl, Nat.add_sub_cancel_left]
-      congr 1
   have hio : ((c.ivt.self : Nat) : Int) - ((c.bdt.start : Nat) : Int) = (c.ivtOff : Int) := by
     rw [pSelf, pBs]; omega
   -- 7. assemble
@@ -304,11 +324,28 @@ theorem hab_roundtrip_lemma (c : Cfg) (b : Built) (h : c.WF)
   simp only []
   rw [hCsfR]
   simp only []
-  rw [pEntry, hvis]
-  simp only []
-  rw [happb, hbo, hio, pBs]
-  unfold expectedParse expectedSegs
-  simp only [himg]
-  rfl
+  by_cases hh : c.hasCsf = true
+  · -- the application is the block the CSF lists
+    simp only [hh, ↓reduceIte]
+    have hs : slice img (c.start + c.ivtOff + c.appOff - c.ivt.self) c.appBin.length = b.app := by
+      rw [pSelf, Nat.add_sub_cancel_left, ← happ]; exact pApp
+    rw [hs, hbo, hio, pBs, pSelf, Nat.add_sub_cancel_left]
+    unfold expectedParse expectedSegs
+    simp only [hh, ↓reduceIte]
+    rfl
+  · have hh' : c.hasCsf = false := by simpa using hh
+    simp only [hh', Bool.false_eq_true, ↓reduceIte]
+    rw [pEntry, hvis hh']
+    simp only []
+    have happb : appSeg img c.ivt c.appOff = ⟨"app", c.appOff, b.app⟩ := by
+      unfold appSeg
+      obtain ⟨hv, hl⟩ := pNoCsf hh'
+      simp only [hv, Nat.lt_irrefl, gt_iff_lt, ↓reduceIte]
+      rw [hl, Nat.add_sub_cancel_left]
+      congr 1
+    rw [happb, hbo, hio, pBs]
+    unfold expectedParse expectedSegs
+    simp only [hh', Bool.false_eq_true, ↓reduceIte]
+    rfl
 
 end SpsdkVerif.Hab
